@@ -291,6 +291,23 @@ func ctrInv(s *seqCounters) bool {
 //@   store windowSize := requires listedWindowOneLessThanKeptFiles: windowSize == maxNrBufSegs - 1
 //@   callsite start requires generatorGetsTheWindow: arg1 == windowSize
 
+// GCDuint32: never 0 unless both arguments are 0 (it is used as a divisor).
+//@ func GCDuint32
+//@   ensures  nonZero: (a != 0 || b != 0) ==> result != 0
+//@   ensures  zeroOnlyForZeros: a == 0 && b == 0 ==> result == 0
+//@   loop 1 invariant (old(a) != 0 || old(b) != 0) ==> (a != 0 || b != 0)
+//@   loop 1 invariant old(a) == 0 && old(b) == 0 ==> a == 0 && b == 0
+//@   loop 1 decreases int(b)
+
+// deriveAndSetFrameRates / deriveAndSetBitrates (channel goroutine): no division by zero - a panic here
+// terminates the receiver.
+//@ func (*channel).deriveAndSetFrameRates
+//@   wiring
+//@   keep divzero
+//@ func (*channel).deriveAndSetBitrates
+//@   wiring
+//@   keep divzero
+
 //@ func (*channel).updateAndWriteMPD
 //@   wiring
 //@   requires ch.masterTimescale != 0
